@@ -602,6 +602,38 @@ def run_rt_case(case, res):
         f = fields(o)
         if f.get("imm") or f.get("csr") or f.get("uimm") or o.mnemonic == "jal":
             res.nontrivial(h64([o.mnemonic, f, 4 * k]))
+    # the command-line front end's instruction listing is one more outlet of the printed text: the text shown
+    # behind each address must assemble, at that address, to the instruction stored there
+    import re as _re
+    import warnings as _w
+
+    with _w.catch_warnings():
+        _w.simplefilter("ignore")
+        from architecture_simulator.cli.cli import instr_mem_repr
+    s0 = make_riscv("single")
+    for k, o in enumerate(objs):
+        s0.state.instruction_memory.write_instruction(4 * k, o)
+    rows = {}
+    for line in instr_mem_repr(s0).splitlines():
+        m_ = _re.match(r"^([0-9A-Fa-f]{8})\s+(\S.*?)\s*$", line)
+        if m_:
+            rows[int(m_.group(1), 16)] = m_.group(2)
+    res.count("cli_listings_checked")
+    if sorted(rows) != [4 * k for k in range(len(objs))]:
+        res.violation("C14", "cli-listing", "the CLI listing shows the addresses %s..., the instruction memory holds %d instructions from 0" % (sorted(rows)[:6], len(objs)), case)
+        return
+    differing = [a for a in rows if rows[a] != repr(objs[a // 4])]
+    if differing:
+        # another spelling is fine as long as it assembles to the same instruction at the same address
+        try:
+            s3 = load("\n".join(rows[a] for a in sorted(rows)))
+            bad = [a for a in differing if type(s3.state.instruction_memory.read_instruction(a)) is not type(objs[a // 4]) or fields(s3.state.instruction_memory.read_instruction(a)) != fields(objs[a // 4])]
+        except Exception as e:
+            bad = differing
+        if bad:
+            a = bad[0]
+            res.violation("C14", "cli-listing", "the CLI listing shows %r at address %d; the instruction stored there is %r (%r) and the shown text does not assemble to it" % (rows[a], a, objs[a // 4], fields(objs[a // 4])), case)
+            return
 
 
 def run_outlets_case(case, res):
@@ -669,6 +701,18 @@ def run_outlets_case(case, res):
                 if not txt or a not in lst or lst[a] != txt:
                     res.violation("C14", "error-message-text", "%s mode: error message prints %r for address %r; that text does not assemble to the instruction at that address (listing: %r)" % (mode, txt, a, lst.get(a) if a in lst else None), case)
                     return
+                # the RENDERED message (what the user reads): "... executing '<text>' at address 0x<hex>: ..."
+                import re as _re
+
+                m_ = _re.search(r"'([^']*)' at address (0[xX][0-9A-Fa-f]+)", repr(e))
+                if m_:
+                    res.count("rendered_error_messages_checked")
+                    if a >= 10:
+                        res.count("rendered_error_address_ge_10")
+                    t2, a2 = m_.group(1), int(m_.group(2), 16)
+                    if lst.get(a2) != t2:
+                        res.violation("C14", "error-message-text", "%s mode: the rendered error message says %r at address %s; the instruction stored at %d prints as %r (the failing instruction is at %d)" % (mode, t2, m_.group(2), a2, lst.get(a2), a), case)
+                        return
                 break
             except Exception:
                 break
